@@ -1,1 +1,5 @@
+pub mod c32;
+pub mod c39;
+pub mod c45;
+pub mod c46;
 pub mod c47;
